@@ -14,8 +14,9 @@ class C28(M.MpiCheck):
     prof = dict(name='C28', np=(2, 6), nmsg=dict(quick=(6, 28), thorough=(6, 40)), ncomm=(0, 2), wild=1, probes=1,
                 trunc=0.15, self_msgs=True, types='basic', cap=40000)
     own = ('bytes', 'canary', 'late-copy', 'status-', 'count', 'trunc-', 'rc', 'match-', 'cross-comm', 'dup', 'overtake',
-           'lost', 'probe-', 'req-twice', 'recv-order')
-    budgets = {'quick': dict(runs=1500, wall=70), 'thorough': dict(runs=24000, wall=780)}
+           'lost', 'probe-', 'req-twice', 'recv-order', 'stuck-match')
+    probes = M.MpiCheck.probes + ('probe_wildcard_choice>1', 'probe_truncate')
+    budgets = {'quick': dict(runs=1500, wall=40), 'thorough': dict(runs=24000, wall=780)}
 
     def nontrivial(self, plan, res):
         return res['stats'].get('recvs_checked', 0) >= 2
